@@ -6,6 +6,8 @@ HIST_RULE = ("seeded operation histories (case idx -> PRNG seed) over engineered
              "operations and crossed at least one growth step (maps) / has >= 10 operations (stacks)")
 
 ENGINE_KINDS = {
+    "prog": "generated well-scoped card programs run in the real VM and in an independent tree-walking reference interpreter; final globals, host-call log and result kind compared",
+    "prog-closures": "as prog, with closure-heavy random programs and parametrised closure scenarios (counters, sibling sharing, per-iteration capture, capture of captures, same card position in two modules, shadowing)",
     "module": "edit histories on Module/Card (get/insert/remove/replace/swap/walk, child API) vs an independent owned-tree model, compared by card id after every edit",
     "hashmap": "operation histories on CaoHashMap vs BTreeMap model in lock-step, drop registry, allocation-failure sweep through the allocator hook",
     "handletable": "operation histories on HandleTable vs BTreeMap model in lock-step, drop registry, logical hang guard (len == capacity)",
@@ -89,5 +91,35 @@ CHECKS = {
         "targets": {"quick": {"edits_compared": 100000, "failing_edits_checked_for_noop": 5000, "law:.*": 3000},
                     "thorough": {"edits_compared": 2000000, "failing_edits_checked_for_noop": 100000, "law:.*": 100000}},
         "assumptions": ["child slot layout per card kind as documented in card.rs", "card identity is Card.id"],
+    },
+    "C01": {
+        "level": "exploration",
+        "level_text": "Held on the sampled programs only: seeded generator of well-scoped programs (class W, DESIGN.md 5.1: literals incl. i64 extremes and 300-byte strings, all arithmetic/comparison/boolean cards over mixed operand kinds, locals/globals, if/else, while, repeat, for-each, early return, static and dynamic calls with 0-3 parameters, sub-module calls, host functions incl. ones re-entering the VM); each program is compiled and run in the real VM and interpreted by an independent reference interpreter (refsem.rs, shares no code with compiler/VM); final globals read by name, the host-call log with deep-copied arguments, and the success/error kind must agree. Cases whose meaning the card language does not fix are dropped and counted, never judged.",
+        "level_note": "Trusted: the reference interpreter (written from the property statements and CardBody doc comments, decisions listed in DESIGN.md appendix A), the deep value snapshot. Resource errors are only judged when the reference needs far less than the limits. Collections are suppressed (next_gc = max) so that C01 is independent of C02.",
+        "technique": "runtime monitoring: differential execution of generated well-scoped programs against an independent reference interpreter, comparing observable outcome (globals, host-call log, result kind)",
+        "rule": "seeded structure-aware generator (case idx -> PRNG seed) producing programs that are well-scoped by construction; distinct by JSON hash; non-trivial when the VM executed >= 25 instructions and the program ran >= 2 loops/calls and both executions agreed",
+        "engines": [
+            {"engine": "prog", "profile": "dev", "cases": {"quick": 4000, "thorough": 100000}, "primary": True},
+            {"engine": "prog", "profile": "release", "cases": {"quick": 0, "thorough": 100000}, "primary": False},
+        ],
+        "hard_floor": {"evaluations": 100, "counters": {"vm_instructions": 10000}},
+        "targets": {"quick": {"card:.*": 100000, "feat:call-from-callee": 1000, "programs_with_native_reentry": 200},
+                    "thorough": {"card:.*": 5000000, "feat:call-from-callee": 50000, "programs_with_native_reentry": 10000}},
+        "assumptions": ["reference semantics decisions of DESIGN.md appendix A", "host functions are the harness natives (log1-3, id1, in0-2, apply0-2, fail, pair, concat)"],
+    },
+    "C06": {
+        "level": "exploration",
+        "level_text": "Held on the sampled programs only: as C01 with closures on. Half of the cases are random programs with closure creation/calls (nesting to depth 2, captures of locals, parameters, loop variables, captured assignment), half are parametrised scenarios that force the situations the statement names: closure created at non-zero frame offset behind 0-3 wrapper frames, counters, sibling closures sharing a variable while the scope is alive, per-iteration capture in repeat/for-each, capture of a capture, the same card position in two modules, shadowed names, closures passed to a host function that re-enters the VM. The reference interpreter implements by-reference capture with shared cells and a fresh scope per loop iteration.",
+        "level_note": "Trusted: the reference interpreter's cell semantics (DESIGN.md appendix A6/A7). Strict programs only (no statement-level left-over values above captured locals).",
+        "technique": "runtime monitoring: differential execution of generated closure programs against an independent reference interpreter with by-reference capture cells",
+        "rule": "seeded random closure programs + 9 parametrised scenario templates; distinct by JSON hash; non-trivial as in C01",
+        "engines": [
+            {"engine": "prog-closures", "profile": "dev", "cases": {"quick": 4000, "thorough": 100000}, "primary": True},
+            {"engine": "prog-closures", "profile": "release", "cases": {"quick": 0, "thorough": 100000}, "primary": False},
+        ],
+        "hard_floor": {"evaluations": 100, "counters": {"feat:closure-created": 1000}},
+        "targets": {"quick": {"feat:closure-created-in-callee": 5000, "feat:upvalue-read": 20000, "feat:upvalue-write": 5000, "scenario:same-card-position-in-two-modules": 300, "scenario:per-iteration-capture": 300, "scenario:shared-siblings": 300},
+                    "thorough": {"feat:closure-created-in-callee": 200000, "feat:upvalue-read": 1000000, "feat:upvalue-write": 200000}},
+        "assumptions": ["reference semantics decisions of DESIGN.md appendix A"],
     },
 }
